@@ -206,6 +206,19 @@ func runC12(ctx *harness.Ctx) {
 		ctx.Sample(map[string]any{"leg": "joined", "input": q(trunc(s, 300))})
 		do(t, "joined", s)
 	})
+	ctx.Rapid("many-lines", ctx.Pick(250, 4000), func(t *rapid.T) {
+		src, where := drawManyLines(t)
+		ctx.Class("many-lines:error-" + where)
+		do(t, "many-lines", src)
+	})
+	// the literal matrix of C13/C14 (16 prefixes incl. doubled ones x 5 quote forms x escapes x positions), with ';' inside and around the literal
+	ctx.Leg("literal-matrix", func() {
+		forLiteralMatrix(ctx, func(lit string) bool {
+			do(nil, "literal-matrix", "SELECT 1 AS "+lit+"; SELECT 2")
+			do(nil, "literal-matrix", lit+";x")
+			return ctx.ViolationCount() < 6
+		})
+	})
 	ctx.Rapid("soup", ctx.Pick(10000, 200000), func(t *rapid.T) {
 		n := rapid.IntRange(0, 16).Draw(t, "n")
 		var b strings.Builder
